@@ -54,7 +54,7 @@ macro_rules! c18_set {
                     Ok(None) => Ok(None),
                     Ok(Some(byte)) => x.s.advance_state(byte),
                 };
-                println!("C18 add_bit({}) got={:?} want={:?}", b, got, want);
+                crate::show!("C18 add_bit({}) got={:?} want={:?}", b, got, want);
                 assert!(got == want, "C18: Keyboard::add_bit differs from frame stage then scancode stage");
                 assert!(same(&kb, &x), "C18: Keyboard::add_bit disturbed a stage it does not feed (or fed a rejected frame on)");
                 kani::cover!(matches!(got, Ok(Some(_))));
@@ -74,7 +74,7 @@ macro_rules! c18_set {
                     Err(e) => Err(e),
                     Ok(byte) => x.s.advance_state(byte),
                 };
-                println!("C18 add_word({:#06x}) got={:?} want={:?}", w, got, want);
+                crate::show!("C18 add_word({:#06x}) got={:?} want={:?}", w, got, want);
                 assert!(got == want, "C18: Keyboard::add_word differs from frame check then scancode stage");
                 assert!(same(&kb, &x), "C18: Keyboard::add_word disturbed a stage it does not feed (or fed a rejected frame on)");
                 kani::cover!(matches!(got, Ok(Some(_))));
@@ -90,7 +90,7 @@ macro_rules! c18_set {
                 let b: u8 = kani::any();
                 let got = kb.add_byte(b);
                 let want = x.s.advance_state(b);
-                println!("C18 add_byte({:#04x}) got={:?} want={:?}", b, got, want);
+                crate::show!("C18 add_byte({:#04x}) got={:?} want={:?}", b, got, want);
                 assert!(got == want, "C18: Keyboard::add_byte differs from the scancode stage");
                 assert!(same(&kb, &x), "C18: Keyboard::add_byte disturbed a stage it does not feed");
                 kani::cover!(matches!(got, Ok(Some(_))));
@@ -111,7 +111,7 @@ macro_rules! c18_set {
                 let n1 = calls.get();
                 let want = x.e.process_keyevent(KeyEvent::new(k, st));
                 let n2 = calls.get();
-                println!("C18 process_keyevent({:?},{:?}) got={:?} want={:?}", k, st, got, want);
+                crate::show!("C18 process_keyevent({:?},{:?}) got={:?} want={:?}", k, st, got, want);
                 assert!(got == want, "C18: Keyboard::process_keyevent differs from the event stage");
                 assert!(n1.wrapping_sub(n0) == n2.wrapping_sub(n1));
                 assert!(same(&kb, &x), "C18: Keyboard::process_keyevent disturbed a stage it does not feed");
@@ -135,7 +135,7 @@ macro_rules! c18_set {
                     x.e.set_ctrl_handling(h);
                     assert!(kb.get_ctrl_handling() == h);
                 }
-                println!("C18 clear/set_ctrl_handling stages={:?}", kb.verif_stages().0);
+                crate::show!("C18 clear/set_ctrl_handling stages={:?}", kb.verif_stages().0);
                 assert!(same(&kb, &x), "C18: clear()/set_ctrl_handling() disturbed a stage it does not own");
                 kani::cover!(true);
             }
